@@ -463,6 +463,13 @@ fn run_case(case: &Case, scratch: Option<&Path>) -> Outcome {
             out.violation = Some(Violation { kind: "size_hint_excludes_the_truth".into(), index: i, line: 0, expected: json!("lower <= remaining rows <= upper"), got: json!(format!("{:?}", h)), row_class: "iterator_interface".into(), row_text: String::new() });
         }
     }
+    if shared.borrow().livelock {
+        if let Some(v) = out.violation.as_mut() {
+            if v.kind == "panic" {
+                v.kind = "no_progress_after_end_of_input".into();
+            }
+        }
+    }
     out.used_nth = nth_at.is_some();
     out.used_fold = folded.is_some();
     drop(via_sim);
@@ -639,7 +646,22 @@ fn worker(seed: u64, from: u64, to: u64, tier: &str, scratch: &Path) -> (Value, 
         if last_term == Some(Term::None) {
             bump("probe_file_without_final_terminator", 1);
         }
-        let o = run_case(&case, Some(scratch));
+        // a real file cannot tell a spinning parser from a slow one: the same case goes through the
+        // simulated reader first (which bounds polling after end of data) and only then through from_path
+        let mut case = case;
+        let o = if case.via_real_file {
+            let mut sim_first = case.clone();
+            sim_first.via_real_file = false;
+            let o1 = run_case(&sim_first, Some(scratch));
+            if o1.violation.is_some() {
+                case = sim_first; // the recorded case is the one that failed
+                o1
+            } else {
+                run_case(&case, Some(scratch))
+            }
+        } else {
+            run_case(&case, Some(scratch))
+        };
         bump("items_judged", o.items as u64);
         bump("delivered_ok", o.delivered_ok);
         bump("delivered_err", o.delivered_err);
@@ -942,7 +964,7 @@ fn cmd_driver(args: &[String]) -> i32 {
         c.args(["worker", "--seed", &seed.to_string(), "--from", &(n * chunk).to_string(), "--to", &((n + 1) * chunk).min(runs).to_string(), "--tier", &tier2, "--scratch"]).arg(&scratch2).arg("--out").arg(of);
         c
     };
-    let results = match run_chunks(nchunks, jobs, &scratch, std::time::Duration::from_secs(1800), &mk) {
+    let results = match run_chunks(nchunks, jobs, &scratch, std::time::Duration::from_secs(900), &mk) {
         Ok(r) => r,
         Err(e) => {
             eprintln!("HARNESS: {}", e);
@@ -1012,8 +1034,9 @@ fn cmd_driver(args: &[String]) -> i32 {
             // minimise, then make sure the minimised file still fails in a fresh process
             let mpath = rdir.join(format!("C17-{}.min.json", seed));
             let exe = std::env::current_exe().unwrap();
-            let ok = std::process::Command::new(&exe).arg("minimise").arg(&rpath).arg("--out").arg(&mpath).status().map(|s| s.code() == Some(0)).unwrap_or(false);
-            if ok && std::process::Command::new(&exe).arg("replay").arg(&mpath).output().map(|o| o.status.code() == Some(1)).unwrap_or(false) {
+            // the minimiser gets two minutes; a case that hangs outside the simulated reader must not hang the check
+            let ok = std::process::Command::new("timeout").arg("120").arg(&exe).arg("minimise").arg(&rpath).arg("--out").arg(&mpath).status().map(|s| s.code() == Some(0)).unwrap_or(false);
+            if ok && std::process::Command::new("timeout").arg("60").arg(&exe).arg("replay").arg(&mpath).output().map(|o| o.status.code() == Some(1)).unwrap_or(false) {
                 let _ = std::fs::rename(&mpath, &rpath);
             } else {
                 let _ = std::fs::remove_file(&mpath);
